@@ -181,10 +181,25 @@ func genC05(g *Gen, tier string) *Program {
 			docs = append(docs, doc)
 		}
 		sort.Strings(docs) // the generator must not depend on map iteration order
+		var groups [][]der
 		for _, doc := range docs {
-			group := byDoc[doc]
+			groups = append(groups, byDoc[doc])
+		}
+		for _, tw := range escapeTwins(g, pfx, k1, v1, k2, v2) {
+			groups = append(groups, []der{{tw[0].sub, tw[0].tags}, {tw[1].sub, tw[1].tags}})
+		}
+		if g.Bool(50) {
+			// try the twins first half of the time, the documented-key groups otherwise
+			for i, j := 0, len(groups)-1; i < j; i, j = i+1, j-1 {
+				groups[i], groups[j] = groups[j], groups[i]
+			}
+		}
+		for _, group := range groups {
+			if room := 7 - len(p.Tasks); len(group) > room {
+				group = group[:max(room, 0)]
+			}
 			if len(group) < 2 {
-				continue
+				continue // a lone member of a group collides with nothing
 			}
 			for i, d := range group {
 				var ops []Op
@@ -199,9 +214,6 @@ func genC05(g *Gen, tier string) *Program {
 				}
 				ops = append(ops, Op{K: "counter", S: cur, M: 1, Name: "c"}, Op{K: "inc", M: 1, I: int64(100 + i)})
 				p.Tasks = append(p.Tasks, ops)
-				if len(p.Tasks) >= 6 {
-					break
-				}
 			}
 		}
 	}
